@@ -42,6 +42,10 @@ impl Property for C02 {
             Tier::Thorough => 200_000,
         }
     }
+    fn domain_off(&self) -> Vec<&'static str> {
+        // restructurings the properties allow (C07 quantifier): not in this check's domain
+        vec!["item_first_list", "item_first_heading", "empty_item"]
+    }
     fn strategy(&self, features: &Features, _tier: Tier) -> BoxedStrategy<DocCase> {
         doc_case(features, 7, 3)
     }
